@@ -42,6 +42,7 @@ type HarnessResult struct {
 	Obligations  int // assertion instances checked with the solver or folded
 	Discharged   int
 	Trivial      int // obligations whose condition folded to true syntactically
+	ByRange      int // branch conditions decided by interval reasoning (no solver query)
 	Violations   []*Violation
 	Inconclusive []string
 	Reached      map[string]int // assert id -> number of paths reaching it
@@ -143,9 +144,12 @@ type Exec struct {
 	stack     []*ssa.Function
 	opaqueSeq int
 	memo      map[string]Value
+	known     map[*Term]bool
+	ranges    map[*Term]rng
+	rmemo     map[*Term]rng
 
 	// per-exec (persist across paths)
-	pristine   map[*ssa.Global]Value
+	pristine   map[*ssa.Global]*Obj
 	initDone   map[*ssa.Package]bool
 	initMode   bool
 	intrinsics map[string]func(e *Exec, args []Value, call *ssa.CallCommon) Value
@@ -179,7 +183,7 @@ func NewExec(prog *ssa.Program, solverKind string, timeoutMs int, cfg Config) (*
 		cfg.MaxDepth = 120
 	}
 	e := &Exec{Prog: prog, tb: tb, solver: s, Cfg: cfg,
-		pristine: map[*ssa.Global]Value{}, initDone: map[*ssa.Package]bool{},
+		pristine: map[*ssa.Global]*Obj{}, initDone: map[*ssa.Package]bool{},
 		intrinsics: map[string]func(e *Exec, args []Value, call *ssa.CallCommon) Value{},
 		descCache:  map[string]*Opaque{}}
 	registerIntrinsics(e)
@@ -268,6 +272,9 @@ func (e *Exec) resetPath() {
 	e.stack = nil
 	e.opaqueSeq = 0
 	e.memo = map[string]Value{}
+	e.known = map[*Term]bool{}
+	e.ranges = map[*Term]rng{}
+	e.rmemo = map[*Term]rng{}
 }
 
 func (e *Exec) runPath(fn *ssa.Function) (out *pathEnd) {
@@ -341,12 +348,20 @@ func (e *Exec) branch(cond *Term, likely bool) bool {
 	if e.initMode {
 		e.unsupported("symbolic branch in init mode")
 	}
+	if v, ok := e.known[cond]; ok {
+		return v
+	}
+	if v, ok := e.decideByRange(cond); ok {
+		e.res.ByRange++
+		return v
+	}
 	if e.pos < len(e.trail) {
 		te := e.trail[e.pos]
 		if te.kind != tBranch || te.cond != cond {
 			panic(fmt.Sprintf("nondeterministic replay at trail %d: kind %d cond %s vs %s", e.pos, te.kind, e.tb.Show(te.cond), e.tb.Show(cond)))
 		}
 		e.pos++
+		e.learn(cond, te.chosen == 0)
 		return te.chosen == 0
 	}
 	te := &trailEntry{kind: tBranch, cond: cond, depthBefore: e.solver.Depth()}
@@ -377,7 +392,16 @@ func (e *Exec) branch(cond *Term, likely bool) bool {
 	}
 	e.trail = append(e.trail, te)
 	e.pos++
+	e.learn(cond, te.chosen == 0)
 	return te.chosen == 0
+}
+
+// learn records a literal decided on this path so that re-evaluating the same
+// condition (e.g. size computed again inside marshal) costs no solver query.
+func (e *Exec) learn(cond *Term, v bool) {
+	e.known[cond] = v
+	e.known[e.tb.Not(cond)] = !v
+	e.learnRange(cond, v)
 }
 
 func (e *Exec) choice(n int) int {
@@ -405,12 +429,25 @@ func (e *Exec) assume(cond *Term) {
 	if cond.IsFalse() {
 		panic(&pathEnd{kind: "pruned"})
 	}
+	if v, ok := e.known[cond]; ok {
+		if v {
+			return
+		}
+		panic(&pathEnd{kind: "pruned"})
+	}
+	if v, ok := e.decideByRange(cond); ok {
+		if v {
+			return
+		}
+		panic(&pathEnd{kind: "pruned"})
+	}
 	if e.pos < len(e.trail) {
 		te := e.trail[e.pos]
 		if te.kind != tAssume || te.cond != cond {
 			panic("nondeterministic replay (assume)")
 		}
 		e.pos++
+		e.learn(cond, true)
 		return
 	}
 	te := &trailEntry{kind: tAssume, cond: cond, depthBefore: e.solver.Depth(), other: 1}
@@ -423,6 +460,7 @@ func (e *Exec) assume(cond *Term) {
 	}
 	e.trail = append(e.trail, te)
 	e.pos++
+	e.learn(cond, true)
 }
 
 // assertProp checks a property assertion under the current path condition.
@@ -450,7 +488,7 @@ func (e *Exec) assertProp(id string, cond *Term) {
 	}
 	e.solver.Push()
 	e.solver.Assert(e.tb.Not(cond))
-	r := e.solver.Check()
+	r := e.solver.CheckAssert()
 	switch r {
 	case Unsat:
 		e.solver.Pop()
@@ -521,7 +559,9 @@ func (e *Exec) extractModel() map[string]string {
 		sels := e.tb.Selects[in.Arr]
 		var its []*Term
 		for _, st := range sels {
-			its = append(its, st.Args[0], st)
+			if e.solver.InCone(st) {
+				its = append(its, st.Args[0], st)
+			}
 		}
 		bv, err := e.solver.GetValues(its)
 		if err != nil {
@@ -840,14 +880,16 @@ func (e *Exec) globalObj(g *ssa.Global) *Obj {
 	}
 	e.ensureInit(g.Pkg)
 	elem := g.Type().(*types.Pointer).Elem()
-	o := e.newObj(ObjCell, elem)
+	o := e.allocValue(elem, g.String()).Obj
 	o.Epoch = -1
 	o.Global = g
-	o.Label = g.String()
 	if pv, ok := e.pristine[g]; ok {
-		o.Val = copyVal(pv)
-	} else {
-		o.Val = e.zero(elem)
+		o.Val = copyVal(pv.Val)
+		o.Bytes = pv.Bytes
+		o.Cells = nil
+		for _, c := range pv.Cells {
+			o.Cells = append(o.Cells, copyVal(c))
+		}
 	}
 	e.globals[g] = o
 	return o
@@ -889,7 +931,7 @@ func (e *Exec) ensureInit(pkg *ssa.Package) {
 	e.initMode = false
 	for g, o := range e.globals {
 		if g.Pkg == pkg {
-			e.pristine[g] = o.Val
+			e.pristine[g] = o
 		}
 	}
 	e.globals, e.stack, e.depth, e.steps = savedGlobals, savedStack, savedDepth, savedSteps
